@@ -172,27 +172,27 @@ def cmp_scen(case, impl, model):
 
 P['C10'] = dict(
     bin='scen', compare=cmp_scen,
-    rule='real gomavlib.Node over 1..4 custom endpoints with scripted in-memory transports; per channel a history of valid frames (v1/v2, signed on keyed links), complete frames with a wrong checksum / signature / missing signature and junk without frame markers, fed in random chunks from concurrent feeders; a transport error ends a channel (close event) and the endpoint opens the next one with its own history; consumer fast / slow / bursty; 0..2 concurrent writers; GOMAXPROCS 1/2/16. Observed per channel: the ordered event sequence, compared for equality with the model prediction (open, one event per read result of the frame-reader model on the same bytes, close). Close-race scenarios (consumer absent while frames arrive, Close(), then ranging over Events()): the observation must be a prefix of the prediction. Non-trivial: at least one frame event predicted.',
+    rule='real gomavlib.Node over 1..4 custom endpoints with scripted in-memory transports; per channel a history of valid frames (v1/v2, signed on keyed links), complete frames with a wrong checksum / signature / missing signature and junk without frame markers, fed in random chunks from concurrent feeders; a transport error ends a channel (close event) and the endpoint opens the next one with its own history; consumer fast / slow / bursty; 0..2 concurrent writers; GOMAXPROCS 1/2/16. Observed per channel: the ordered event sequence, compared for equality with the model prediction (open, one event per read result of the frame-reader model on the same bytes, close). Close-race scenarios (consumer absent while frames arrive, Close(), then ranging over Events()): the observation must be a prefix of the prediction. Non-trivial: at least one frame event predicted.; four channels decoding 300 truncated v2 payloads of the same message type at once (every frame tagged with channel and index: a channel must see exactly its own frames in order); a TCP server channel with a 300 ms idle time-out whose application pauses twice for longer than that while the peer keeps sending (nothing lost, channel stays open)',
     assumptions=['scheduler perturbation (GOMAXPROCS, sleeps, Gosched) is search, not proof; the all-schedules claim is the LTS theorem', 'waiting is on predicted observables with a 20 s timeout'],
     mismatch_meaning='the event sequence the application observed from a channel differs from the sequence every execution of the node model produces (open first, one event per input in order, close last): concrete input history',
 )
 
 P['C11'] = dict(
     bin='scen', compare=cmp_scen,
-    rule='real Node over 1..5 custom endpoints; 1..3 submitter goroutines each issuing 3..17 calls drawn from the six Write* calls (messages and forwarded frames carrying a serial number; targets all / one / all-but-one, sometimes a channel of another node), with concurrent incoming traffic, GOMAXPROCS 1/2/16; total per channel below the queue size so nothing may be dropped; a FIFO marker per channel closes the observation. Per channel: every transport write must be exactly one frame; forwarded frames keep their header, originated messages carry the configured ids and per-link sequence numbers 0,1,2,..; the serial sequence on the wire is checked by the extracted acceptance predicate fan_ok (restricted to any submitter it equals that submitter\'s targeted submissions in order, and holds nothing else). Non-trivial: the predicate was evaluated on a non-empty wire.; router scenarios (every received frame forwarded to the other channels while several more arrive in the same transport read, with and without a dialect: forwarded bytes identical, in order, nothing back to the sender); a stalled sibling channel with an overflowing queue must not keep anything from the healthy one nor block the submitter',
+    rule='real Node over 1..5 custom endpoints; 1..3 submitter goroutines each issuing 3..17 calls drawn from the six Write* calls (messages and forwarded frames carrying a serial number; targets all / one / all-but-one, sometimes a channel of another node), with concurrent incoming traffic, GOMAXPROCS 1/2/16; total per channel below the queue size so nothing may be dropped; a FIFO marker per channel closes the observation. Per channel: every transport write must be exactly one frame; forwarded frames keep their header, originated messages carry the configured ids and per-link sequence numbers 0,1,2,..; the serial sequence on the wire is checked by the extracted acceptance predicate fan_ok (restricted to any submitter it equals that submitter\'s targeted submissions in order, and holds nothing else). Non-trivial: the predicate was evaluated on a non-empty wire.; router scenarios (every received frame forwarded to the other channels while several more arrive in the same transport read, with and without a dialect: forwarded bytes identical, in order, nothing back to the sender); a stalled sibling channel with an overflowing queue must not keep anything from the healthy one nor block the submitter; ArduPilot heartbeats from 20..40 distinct components (one burst of seven stream requests each) while the application writes 40..80 messages to the same channel: every write on the wire is one whole frame, sequence numbers gapless, count exact; a router variant that also answers with stream requests',
     assumptions=['acceptance predicate fan_ok is the decidable form of C11_exactly_once + C11_wire_in_order when no queue overflows', 'scheduler perturbation is search'],
     mismatch_meaning='a wire shows a lost, duplicated, reordered, foreign or torn item, or wrong header fields: concrete submission history',
 )
 P['C13'] = dict(
     bin='scen', compare=cmp_scen,
-    rule='(a) 2..4 channels, one transport blocked in Write; 100..250 WriteMessageAll: every healthy channel must show all items in order (marker-terminated) and events must keep flowing; after release the stalled channel must show an ordered subsequence of at most 1+64 items (+marker). (b) transport Write failing at 1..3 random call positions: the wire must hold every other item, in order. (c) unencodable items (raw id outside the dialect; id > 255 on a V1 link) at random positions: every valid item must still reach the wire, sequence numbers gapless. Non-trivial: predicate evaluated on a non-empty wire.',
+    rule='(a) 2..4 channels, one transport blocked in Write; 100..250 WriteMessageAll: every healthy channel must show all items in order (marker-terminated) and events must keep flowing; after release the stalled channel must show an ordered subsequence of at most 1+64 items (+marker). (b) transport Write failing at 1..3 random call positions: the wire must hold every other item, in order. (c) unencodable items (raw id outside the dialect; id > 255 on a V1 link) at random positions: every valid item must still reach the wire, sequence numbers gapless. Non-trivial: predicate evaluated on a non-empty wire.; (d) a Write stalls in a serial device at the k-th call and the read side then fails: close event with cause, the other channel goes on, Close returns',
     assumptions=['scheduler perturbation is search; the all-schedules claims are the LTS theorems'],
     mismatch_meaning='a stalled or failing channel delayed others, exceeded its bounded backlog, reordered, or stayed open while discarding output: concrete write history',
 )
 
 P['C12'] = dict(
     bin='scen', compare=cmp_scen,
-    rule='real Node; Close() issued at scripted points: before the first event is consumed, reader blocked on an undelivered event, idle, writer blocked in the transport (a transport whose Write only returns on Close), channel mid-close (read error just before), traffic in flight, 100 pending writes — each with the consumer running and absent, 1..3 custom endpoints, 0..2 goroutines calling WriteMessageAll before, during and after Close, GOMAXPROCS 1/2/16; then network endpoints over loopback (TCP/UDP server with a peer, TCP client connected and in reconnect back-off, UDP client, UDP broadcast) and a node whose initialisation fails on its third endpoint. Observed: Close returns within 8 s, ranging over Events() ends, each custom transport closed exactly once, no goroutine running gomavlib/pion code is left, Write* callers returned without panic, TCP/UDP ports can be bound again. Every case expects the verdict ok. Non-trivial: every case.; read error while a Write is stuck in a serial device; a device handed out while Close is in progress must be closed; Close with a stuck channel whose queue has overflowed; Close() called directly after NewNode() (GOMAXPROCS 1/2/16, heartbeats on and off): no device may be opened after Close returned; odd but possible settings of the broadcast endpoint and a late-failing endpoint list: whatever the outcome of the initialisation, the local port is free after the failure or after Close',
+    rule='real Node; Close() issued at scripted points: before the first event is consumed, reader blocked on an undelivered event, idle, writer blocked in the transport (a transport whose Write only returns on Close), channel mid-close (read error just before), traffic in flight, 100 pending writes — each with the consumer running and absent, 1..3 custom endpoints, 0..2 goroutines calling WriteMessageAll before, during and after Close, GOMAXPROCS 1/2/16; then network endpoints over loopback (TCP/UDP server with a peer, TCP client connected and in reconnect back-off, UDP client, UDP broadcast) and a node whose initialisation fails on its third endpoint. Observed: Close returns within 8 s, ranging over Events() ends, each custom transport closed exactly once, no goroutine running gomavlib/pion code is left, Write* callers returned without panic, TCP/UDP ports can be bound again. Every case expects the verdict ok. Non-trivial: every case.; read error while a Write is stuck in a serial device; a device handed out while Close is in progress must be closed; Close with a stuck channel whose queue has overflowed; Close() called directly after NewNode() (GOMAXPROCS 1/2/16, heartbeats on and off): no device may be opened after Close returned; odd but possible settings of the broadcast endpoint and a late-failing endpoint list: whatever the outcome of the initialisation, the local port is free after the failure or after Close; Close after 1..5 ms of a 100..500 microsecond heartbeat period (30 times); transports that release a blocked Read 300 ms late (one look for live goroutines 40 ms after Close returned)',
     assumptions=['fairness of the Go scheduler and OS release of sockets are measured, not proved', 'goroutine-leak probe: stacks containing gomavlib or pion frames, polled up to 3 s'],
     mismatch_meaning='Close did not return, or left a goroutine, socket, open event channel or unclosed custom transport behind, or a Write* call blocked / panicked: the scenario description is the replay',
 )
@@ -240,6 +240,12 @@ def run_race(root, env, sh, pid, tier, seed, wd, log):
             rc, out = sh([_os.path.join(h, 'bin/scen-race'), sid, sub, t], timeout=3000, env=e2)
             log.append(('scen-race ' + sid, rc, out[-1500:]))
             if rc != 0:
+                if '/repo/' in out and ('panic:' in out or 'fatal error:' in out):
+                    # the library itself crashed on this schedule: that is the failing schedule
+                    cases.append('race\t%s\t%s\t%d\tcrashed' % (sid, t, sd))
+                    impl.append('CRASH ' + ' '.join(out[out.find('panic:') if 'panic:' in out else out.find('fatal error:'):].split())[:3000])
+                    model.append('races=0')
+                    continue
                 return False, 'race-enabled scenario %s failed to run: %s' % (sid, out[-1500:])
             n = 0
             try:
